@@ -1,4 +1,7 @@
 #ifndef VP_WSMASK_SPEC_H
 #define VP_WSMASK_SPEC_H
+#ifndef WSM_MAXLEN
+#define WSM_MAXLEN ((size_t) 1 << 40)
+#endif
 #define WSM_OFF(p) ((size_t) __CPROVER_POINTER_OFFSET(p))
 #endif
